@@ -9,6 +9,7 @@ CONSTANTS
   RxDeltas = {0, 1, 3}
   Delays <- DelaysFull
   CtrlDelays = {5}
+  IndexMode = "pos"
   Record = TRUE
 INVARIANTS EmitScn
 CHECK_DEADLOCK FALSE
